@@ -127,6 +127,8 @@ instance getcfcheckpt_lawful : Lawful getcfcheckpt := by unfold getcfcheckpt; in
 
 /-! ### framing -/
 
+instance lenField_lawful : Lawful lenField := by unfold lenField; infer_instance
+
 instance framedPayload_lawful : Lawful framedPayload := by
   unfold framedPayload
   refine imap_lawful inferInstance ?_
